@@ -47,6 +47,7 @@ type FuncContract struct {
 	Ghosts   []QVar // ghost parameters: arbitrary but fixed values the clauses may mention
 	Insts    map[string][]Expr // "callee.ghost" -> explicit instantiations at call sites in this function
 	OnReturn []*GhostSet       // ghost updates that take effect when the function returns
+	LockAssumes []*Clause      // assumed right after each lock acquisition in this function (listed as assumptions)
 	Trusted  bool // contract assumed, body not verified
 	MayPanic bool
 	Extern   bool
@@ -83,6 +84,8 @@ type LockSpec struct {
 	Guards     []string
 	Invariants []*Clause
 	Guarantees []*Clause
+	Assumes    []*Clause // assumed at acquisition, never checked (listed as assumptions)
+	Ghosts     []QVar    // arbitrary values the guarantee clauses may mention
 }
 
 type Lemma struct {
@@ -114,7 +117,7 @@ var topKeywords = map[string]bool{"func": true, "extern": true, "pred": true, "g
 	"lemma": true, "axiom": true, "benign": true, "fn": true, "immutable": true}
 var clauseKeywords = map[string]bool{"props": true, "arith": true, "requires": true, "ensures": true,
 	"modifies": true, "loop": true, "invariant": true, "decreases": true, "unroll": true, "trusted": true,
-	"maypanic": true, "guarantee": true, "guards": true, "ghostparam": true, "inst": true, "onreturn": true}
+	"maypanic": true, "guarantee": true, "guards": true, "ghostparam": true, "inst": true, "onreturn": true, "lockassume": true, "assume": true}
 
 type logicalLine struct {
 	kw   string
@@ -476,10 +479,32 @@ func (cs *Contracts) loadFile(path, pkgPath string) error {
 			}
 		case "ghostparam":
 			f := strings.Fields(l.rest)
-			if len(f) < 2 || curFunc == nil {
+			if len(f) < 2 || (curFunc == nil && curLock == nil) {
 				return fmt.Errorf("%s:%d: ghostparam name type", path, l.line)
 			}
-			curFunc.Ghosts = append(curFunc.Ghosts, QVar{f[0], strings.Join(f[1:], "")})
+			if curLock != nil {
+				curLock.Ghosts = append(curLock.Ghosts, QVar{f[0], strings.Join(f[1:], "")})
+			} else {
+				curFunc.Ghosts = append(curFunc.Ghosts, QVar{f[0], strings.Join(f[1:], "")})
+			}
+		case "lockassume":
+			c, err := mkClause(l)
+			if err != nil {
+				return err
+			}
+			if curFunc == nil {
+				return fmt.Errorf("%s:%d: lockassume outside func", path, l.line)
+			}
+			curFunc.LockAssumes = append(curFunc.LockAssumes, c)
+		case "assume":
+			c, err := mkClause(l)
+			if err != nil {
+				return err
+			}
+			if curLock == nil {
+				return fmt.Errorf("%s:%d: assume outside lock", path, l.line)
+			}
+			curLock.Assumes = append(curLock.Assumes, c)
 		case "trusted":
 			curFunc.Trusted = true
 		case "maypanic":
